@@ -312,35 +312,91 @@ class ProjectorTransform(Contract):
     name = f"{PROJ}.projector.Projector.transform_and_bubble_up"
     prop = ("C10",)
     top_level = True
-    cases = ("single", "chained")
-    descr = "a chain of projectors applies each projector's transform, innermost first (chained projections equal their composition)"
-    inline = (f"{PROJ}.projector.Projector.transform_and_bubble_up", f"{PROJ}.entity_to_person_projector.EntityToPersonProjector.transform",
-              f"{PROJ}.first_person_to_entity_projector.FirstPersonToEntityProjector.transform")
+    cases = ("root", "has-parent")
+    descr = ("BUBBLE(p, v) = TR(p, v) for a projector without parent, BUBBLE(p.parent, TR(p, v)) otherwise: the recursive call is "
+             "taken under this same contract, so by induction on the length of the chain a chained projection is the composition "
+             "of the projectors' transforms, innermost first, whatever the length")
 
     def setup(self, I, ctx, case):
         R = I.resolve_qualified
         e1 = Obj(R(GPOP), {}, label="households")
-        e2 = Obj(R(GPOP), {}, label="families")
-        outer = Obj(R(f"{PROJ}.entity_to_person_projector.EntityToPersonProjector"), {"reference_entity": e2, "parent": None}, label="outer")
+        outer = Obj(R(f"{PROJ}.entity_to_person_projector.EntityToPersonProjector"), {"reference_entity": Obj(R(GPOP), {}), "parent": Opaque(None, "rest-of-the-chain", {})}, label="parent")
         inner = Obj(R(f"{PROJ}.first_person_to_entity_projector.FirstPersonToEntityProjector"),
-                    {"target_entity": e1, "reference_entity": Obj(R(POP), {}), "parent": outer if case == "chained" else None}, label="inner")
-        return {"self": inner, "result": Opaque(None, "value", {}), "__e1": e1, "__e2": e2, "__case": case}
+                    {"target_entity": e1, "reference_entity": Obj(R(POP), {}), "parent": outer if case == "has-parent" else None}, label="self")
+        return {"self": inner, "result": Opaque(None, "value", {}), "__outer": outer, "__case": case}
 
     @staticmethod
     def local_contracts():
         mk = lambda tag: (lambda I, ctx, a: Opaque(None, tag, {}))
-        return {f"{GPOP}.value_from_first_person": rec(f"{GPOP}.value_from_first_person", "first_person", [("return", mk("first-person-value"))]),
-                f"{GPOP}.project": rec(f"{GPOP}.project", "project", [("return", mk("projected"))])}
+        return {f"{PROJ}.first_person_to_entity_projector.FirstPersonToEntityProjector.transform":
+                rec(f"{PROJ}.first_person_to_entity_projector.FirstPersonToEntityProjector.transform", "TR", [("return", mk("TR(self, v)"))]),
+                f"{PROJ}.entity_to_person_projector.EntityToPersonProjector.transform":
+                rec(f"{PROJ}.entity_to_person_projector.EntityToPersonProjector.transform", "TR", [("return", mk("TR(parent, v)"))]),
+                f"{PROJ}.projector.Projector.transform_and_bubble_up":
+                rec(f"{PROJ}.projector.Projector.transform_and_bubble_up", "BUBBLE", [("return", mk("BUBBLE(parent, v)"))])}
 
     def post(self, I, ctx, a, out, old):
         log = log_of(ctx)
         if out[0] != "return":
             return [("no-exception", False)]
-        ok1 = len(log) >= 1 and log[0]["callee"] == "first_person" and log[0]["args"]["self"] is a["__e1"] and log[0]["args"]["array"] is a["result"]
-        if a["__case"] == "single":
-            return [("own-transform-applied", ok1 and len(log) == 1 and out[1] is log[0]["value"])]
-        ok2 = len(log) == 2 and log[1]["callee"] == "project" and log[1]["args"]["self"] is a["__e2"] and log[1]["args"]["array"] is log[0]["value"]
-        return [("inner-transform-first", ok1), ("outer-transform-on-its-result", ok2), ("composition-returned", ok2 and out[1] is log[1]["value"])]
+        ok1 = len(log) >= 1 and log[0]["callee"] == "TR" and log[0]["args"]["self"] is a["self"] and log[0]["args"]["result"] is a["result"]
+        if a["__case"] == "root":
+            return [("own-transform-of-the-value-is-returned", ok1 and len(log) == 1 and out[1] is log[0]["value"])]
+        ok2 = (len(log) == 2 and log[1]["callee"] == "BUBBLE" and log[1]["args"]["self"] is a["__outer"]
+               and log[1]["args"]["result"] is log[0]["value"])
+        return [("own-transform-first", ok1), ("the-parent-bubbles-up-the-transformed-value", ok2),
+                ("what-the-parent-chain-gives-is-returned", ok2 and out[1] is log[1]["value"])]
+
+
+class ProjectorTransforms(Contract):
+    name = f"{PROJ}.entity_to_person_projector.EntityToPersonProjector.transform"
+    prop = ("C10",)
+    top_level = True
+    cases = ("entity-to-person",)
+    descr = ("the transform of each projector kind is the corresponding population operation on its own entity: project, "
+             "value_from_first_person, value_from_person with its role")
+    NAMES = {"entity-to-person": f"{PROJ}.entity_to_person_projector.EntityToPersonProjector",
+             "first-person-to-entity": f"{PROJ}.first_person_to_entity_projector.FirstPersonToEntityProjector",
+             "unique-role-to-entity": f"{PROJ}.unique_role_to_entity_projector.UniqueRoleToEntityProjector"}
+
+    def setup(self, I, ctx, case):
+        R = I.resolve_qualified
+        e, other = Obj(R(GPOP), {}, label="entity"), Obj(R(GPOP), {}, label="other")
+        role = Opaque(None, "role", {})
+        fields = {"reference_entity": e, "parent": None} if case == "entity-to-person" else \
+            {"target_entity": e, "reference_entity": other, "parent": None, "role": role}
+        return {"self": Obj(R(self.NAMES[case]), fields, label="projector"), "result": Opaque(None, "value", {}), "__e": e, "__role": role, "__case": case}
+
+    @staticmethod
+    def local_contracts():
+        mk = lambda tag: (lambda I, ctx, a: Opaque(None, tag, {}))
+        return {f"{GPOP}.value_from_first_person": rec(f"{GPOP}.value_from_first_person", "value_from_first_person", [("return", mk("first-person-value"))]),
+                f"{GPOP}.value_from_person": rec(f"{GPOP}.value_from_person", "value_from_person", [("return", mk("role-value"))]),
+                f"{GPOP}.project": rec(f"{GPOP}.project", "project", [("return", mk("projected"))])}
+
+    def post(self, I, ctx, a, out, old):
+        log = log_of(ctx)
+        want = {"entity-to-person": "project", "first-person-to-entity": "value_from_first_person", "unique-role-to-entity": "value_from_person"}[a["__case"]]
+        if out[0] != "return" or len(log) != 1:
+            return [("one-population-operation", False)]
+        c = log[0]
+        res = [("the-operation-of-this-projector-kind", c["callee"] == want), ("on-the-projector's-own-entity", c["args"]["self"] is a["__e"]),
+               ("on-the-value-given", c["args"]["array"] is a["result"]), ("its-result-is-returned", out[1] is c["value"])]
+        if want == "value_from_person":
+            res.append(("with-the-projector's-role", c["args"]["role"] is a["__role"]))
+        if want == "project":
+            res.append(("for-every-member-whatever-its-role", c["args"].get("role") is None))
+        return res
+
+
+class ProjectorTransformsFirst(ProjectorTransforms):
+    name = ProjectorTransforms.NAMES["first-person-to-entity"] + ".transform"
+    cases = ("first-person-to-entity",)
+
+
+class ProjectorTransformsRole(ProjectorTransforms):
+    name = ProjectorTransforms.NAMES["unique-role-to-entity"] + ".transform"
+    cases = ("unique-role-to-entity",)
 
 
 def lemmas(prop, timeout_ms):
@@ -369,4 +425,4 @@ def lemmas(prop, timeout_ms):
     return recs
 
 
-CONTRACTS = [GroupSum(), GroupNbPersons(), GroupAny(), GroupProject(), MembersPosition(), ProjectorTransform()]
+CONTRACTS = [GroupSum(), GroupNbPersons(), GroupAny(), GroupProject(), MembersPosition(), ProjectorTransform(), ProjectorTransforms(), ProjectorTransformsFirst(), ProjectorTransformsRole()]
